@@ -277,4 +277,204 @@ theorem split_eq (p : α → Bool) (grouping : Bool) (maxsplit : Option Int) (sr
     rw [(splitLoop_ws p _ src).1 0, rem_zero]
     rfl
 
+/-! ### what the item-wise `str.split` delivers (sanity of the specification itself) -/
+
+theorem consHead_length {c : List α} {l : List (List α)} (h : l ≠ []) : (consHead c l).length = l.length := by
+  cases l with
+  | nil => exact absurd rfl h
+  | cons g gs => simp [consHead]
+
+theorem pySplitSep_none_pieces (p : α → Bool) (src : List α) :
+    (∀ g ∈ pySplitSep p none src, ∀ x ∈ g, p x = false) ∧
+    (pySplitSep p none src).length = src.countP p + 1 := by
+  induction src with
+  | nil => simp [pySplitSep]
+  | cons x xs ih =>
+    rw [pySplitSep_cons]
+    by_cases hp : p x = true
+    · have : (none : Option Nat) != some 0 := by decide
+      simp only [hp, this, Bool.and_self, ↓reduceIte, Option.map_none, List.mem_cons, List.length_cons,
+        List.countP_cons]
+      refine ⟨?_, by omega⟩
+      intro g hg
+      rcases hg with rfl | hg
+      · simp
+      · exact ih.1 g hg
+    · have hp' : p x = false := by simpa using hp
+      simp only [hp', Bool.false_and, Bool.false_eq_true, ↓reduceIte, List.countP_cons]
+      have hne := pySplitSep_ne_nil p none xs
+      cases hr : pySplitSep p none xs with
+      | nil => exact absurd hr hne
+      | cons g gs =>
+        rw [hr] at ih
+        refine ⟨?_, by simpa [consHead] using ih.2⟩
+        intro g' hg'
+        simp only [consHead, List.mem_cons] at hg'
+        rcases hg' with rfl | hg'
+        · intro y hy
+          simp only [List.cons_append, List.nil_append, List.mem_cons] at hy
+          rcases hy with rfl | hy
+          · exact hp'
+          · exact ih.1 g (by simp) y hy
+        · exact ih.1 g' (by simp [hg'])
+
+theorem intercalate_cons_cons (sep a b : List α) (l : List (List α)) :
+    sep.intercalate (a :: b :: l) = a ++ sep ++ sep.intercalate (b :: l) := by
+  simp [List.intercalate]
+
+theorem pySplitSep_join [DecidableEq α] (s : α) (ms : Option Nat) (src : List α) :
+    [s].intercalate (pySplitSep (fun x => decide (x = s)) ms src) = src := by
+  induction src generalizing ms with
+  | nil => simp [pySplitSep, List.intercalate]
+  | cons x xs ih =>
+    rw [pySplitSep_cons]
+    split
+    · rename_i h
+      simp only [Bool.and_eq_true, decide_eq_true_eq] at h
+      have hne := pySplitSep_ne_nil (fun x => decide (x = s)) (ms.map Nat.pred) xs
+      have := ih (ms.map Nat.pred)
+      cases hr : pySplitSep (fun x => decide (x = s)) (ms.map Nat.pred) xs with
+      | nil => exact absurd hr hne
+      | cons g gs =>
+        rw [hr] at this
+        rw [intercalate_cons_cons, this, h.1]
+        simp
+    · have hne := pySplitSep_ne_nil (fun x => decide (x = s)) ms xs
+      have := ih ms
+      cases hr : pySplitSep (fun x => decide (x = s)) ms xs with
+      | nil => exact absurd hr hne
+      | cons g gs =>
+        rw [hr] at this
+        cases gs with
+        | nil =>
+          simp only [List.intercalate, List.intersperse_single, List.flatten_cons, List.flatten_nil,
+            List.append_nil] at this
+          simp [consHead, List.intercalate, this]
+        | cons b l =>
+          rw [intercalate_cons_cons] at this
+          simp only [consHead]
+          rw [intercalate_cons_cons]
+          simp only [List.cons_append, List.nil_append] at this ⊢
+          rw [this]
+
+theorem pySplitSep_length_le (p : α → Bool) (m : Nat) (src : List α) :
+    (pySplitSep p (some m) src).length ≤ m + 1 := by
+  induction src generalizing m with
+  | nil => simp [pySplitSep]
+  | cons x xs ih =>
+    rw [pySplitSep_cons]
+    split
+    · rename_i h
+      simp only [Bool.and_eq_true, bne_iff_ne, ne_eq, Option.some.injEq] at h
+      have := ih (m - 1)
+      simp only [Option.map_some, List.length_cons, Nat.pred_eq_sub_one]
+      omega
+    · rw [consHead_length (pySplitSep_ne_nil _ _ _)]
+      exact ih m
+
+theorem wsLoop_length_le (p : α → Bool) : ∀ (fuel m : Nat) (xs : List α),
+    (pySplitWsLoop p fuel (some m) xs).length ≤ m + 1 := by
+  intro fuel
+  induction fuel with
+  | zero => intro m xs; simp [pySplitWsLoop]
+  | succ n ih =>
+    intro m xs
+    rw [wsLoop_step]
+    split
+    · simp
+    · split
+      · simp
+      · rename_i h
+        simp only [beq_iff_eq, Option.some.injEq] at h
+        have := ih (m - 1) ((xs.dropWhile p).dropWhile (notp p))
+        simp only [Option.map_some, List.length_cons, Nat.pred_eq_sub_one]
+        omega
+
+theorem pySplit_length_le (p : α → Bool) (grouping : Bool) (m : Nat) (src : List α) :
+    (pySplit p grouping ((some (m : Int)).map Int.toNat) src).length ≤ m + 1 := by
+  simp only [Option.map_some, Int.toNat_natCast, pySplit]
+  cases grouping with
+  | false => exact pySplitSep_length_le p m src
+  | true => exact wsLoop_length_le p _ m src
+
+theorem filter_notp_dropWhile (p : α → Bool) (xs : List α) :
+    (xs.dropWhile p).filter (notp p) = xs.filter (notp p) := by
+  induction xs with
+  | nil => rfl
+  | cons x xs ih =>
+    by_cases hp : p x = true
+    · rw [List.dropWhile_cons_of_pos hp, ih]; simp [notp, hp]
+    · rw [List.dropWhile_cons_of_neg hp]
+
+theorem filter_takeWhile_self (q : α → Bool) (xs : List α) : (xs.takeWhile q).filter q = xs.takeWhile q := by
+  induction xs with
+  | nil => rfl
+  | cons x xs ih =>
+    rw [List.takeWhile_cons]
+    split
+    · rename_i h; simp [h, ih]
+    · rfl
+
+theorem mem_takeWhile_sat (q : α → Bool) (xs : List α) : ∀ x ∈ xs.takeWhile q, q x = true := by
+  induction xs with
+  | nil => simp
+  | cons a xs ih =>
+    rw [List.takeWhile_cons]
+    split
+    · rename_i h
+      intro x hx
+      simp only [List.mem_cons] at hx
+      rcases hx with rfl | hx
+      · exact h
+      · exact ih x hx
+    · simp
+
+theorem wsLoop_none_pieces (p : α → Bool) : ∀ (fuel : Nat) (xs : List α), xs.length ≤ fuel →
+    (∀ g ∈ pySplitWsLoop p fuel none xs, g ≠ [] ∧ ∀ x ∈ g, p x = false) ∧
+    (pySplitWsLoop p fuel none xs).flatten = xs.filter (notp p) := by
+  intro fuel
+  induction fuel with
+  | zero =>
+    intro xs h
+    have : xs = [] := List.length_eq_zero_iff.mp (by omega)
+    simp [pySplitWsLoop, this]
+  | succ n ih =>
+    intro xs h
+    rw [wsLoop_step]
+    by_cases he : (xs.dropWhile p).isEmpty = true
+    · simp only [he, ↓reduceIte, List.not_mem_nil, false_imp_iff, implies_true, List.flatten_nil, true_and]
+      rw [← filter_notp_dropWhile]
+      have : xs.dropWhile p = [] := by simpa using he
+      rw [this]; rfl
+    · have he' : (xs.dropWhile p).isEmpty = false := by simpa using he
+      have hlt := ws_rest_lt p xs he'
+      have hb : ((none : Option Nat) == some 0) = false := by decide
+      simp only [he', Bool.false_eq_true, ↓reduceIte, hb, Option.map_none]
+      obtain ⟨ih1, ih2⟩ := ih ((xs.dropWhile p).dropWhile (notp p)) (by omega)
+      refine ⟨?_, ?_⟩
+      · intro g hg
+        simp only [List.mem_cons] at hg
+        rcases hg with rfl | hg
+        · refine ⟨?_, ?_⟩
+          · cases hd : xs.dropWhile p with
+            | nil => simp [hd] at he'
+            | cons y ys =>
+              have hy : p y = false := by
+                have := List.head_dropWhile_not p (l := xs) (by simp [hd])
+                simpa [hd] using this
+              simp [List.takeWhile_cons, notp, hy]
+          · intro x hx
+            have := mem_takeWhile_sat (notp p) _ x hx
+            simpa [notp] using this
+        · exact ih1 g hg
+      · rw [List.flatten_cons, ih2, ← filter_notp_dropWhile p xs]
+        conv => rhs; rw [← List.takeWhile_append_dropWhile (p := notp p) (l := xs.dropWhile p)]
+        rw [List.filter_append, filter_takeWhile_self]
+
+theorem pySplitWs_none_pieces (p : α → Bool) (src : List α) :
+    (∀ g ∈ pySplit p true ((none : Option Int).map Int.toNat) src, g ≠ [] ∧ ∀ x ∈ g, p x = false) ∧
+    (pySplit p true ((none : Option Int).map Int.toNat) src).flatten = src.filter (fun x => !p x) := by
+  simp only [Option.map_none, pySplit, ↓reduceIte, pySplitWs]
+  exact wsLoop_none_pieces p src.length src (Nat.le_refl _)
+
 end C09
